@@ -239,7 +239,7 @@ def check(ctx):
     ctx.explanation = EXPLANATION
     ctx.trusted = ["rustc's layout computation (layout_of) and the documented repr(C)/repr(transparent) algorithms", "typenum: UInt<U, B>::USIZE = 2*U::USIZE + B"]
     ctx.assumptions = ["element types outside the probed lattice are covered by the structural rule C01.S only"]
-    cfgs = ["F0", "F1"]
+    cfgs = ["F0", "F1", "F1N"]
     ctx.need(*cfgs)
     for cfg in cfgs:
         check_structure(ctx, cfg)
